@@ -7,6 +7,7 @@ import SF.Lemmas.Hln
 import SF.Lemmas.Lagf
 import SF.Lemmas.LagRsi
 import SF.Lemmas.Flex
+import SF.Lemmas.CyberCycle
 import SF.Expr
 /-
   C18 — Bounded memory: state size does not grow with stream length.
@@ -59,6 +60,9 @@ theorem laguerre_bounded (g : α) : Core.SizeBounded (lagfCore (α := α) g) 9 :
 
 section transc
 variable [Transc α]
+/-- CyberCycle keeps at most N inputs, N outputs and its N smoothing slots (N ≥ 6) -/
+theorem cyberCycle_bounded (N : Nat) (hN : 6 ≤ N) : Core.SizeBounded (ccCoreU (α := α) N) (3 * N) :=
+  fun xs s h => CC.size_le N hN xs s h
 /-- TrendFlex / ReFlex keep at most N filter values (N ≥ 3) -/
 theorem trendFlex_bounded (N : Nat) (hN : 3 ≤ N) : Core.SizeBounded (tflexCore (α := α) N) N :=
   fun xs s h => Flex.size_le N hN xs s h
